@@ -219,7 +219,8 @@ def part_drive(res, rng, n_tuples):
             mappings.append((a, b, number, 0, 0, 0, 0, 0))
             chosen.append((T, cname, ckind, lo, hi, a, b, number))
             mods.append(m)
-        kw = dict(gain=gain, quantization=quant, mappings=mappings)
+        out_offset = rng.choice([0, 0, 1, -1, 48, -48, 16384, -16384, rng.randint(-16384, 16384)])
+        kw = dict(gain=gain, quantization=quant, mappings=mappings, out_offset=out_offset)
         if curve is not None:
             kw["curve"] = curve
         mc = p.new_module(MultiCtl, **kw)
@@ -231,7 +232,7 @@ def part_drive(res, rng, n_tuples):
             for i in range(257):
                 other.curve.values[i] = (i * 7919) % 32769 if i % 2 else 32768 - (i * 101) % 32768
             res.count("sibling_curve_scribbles")
-        case = {"gain": gain, "quantization": quant, "curve": "default" if curve is None else curve[::32],
+        case = {"gain": gain, "quantization": quant, "out_offset": out_offset, "curve": "default" if curve is None else curve[::32],
                 "targets": [list(c) for c in chosen]}
         snaps = []
         for m, c in zip(mods, chosen):
@@ -272,6 +273,40 @@ def part_drive(res, rng, n_tuples):
                 distinct_vals[i].add(got)
             if stop:
                 break
+        # second sweep on the SAME bundle after its mapping windows were flipped IN PLACE, starting with the input that
+        # was sent last (a fan-out that remembers what it delivered must not skip it), going downwards
+        if not stop and ti % 2 == 0:
+            for i, c in enumerate(chosen):
+                mp = mc.mappings.values[i]
+                mp.min, mp.max = mp.max, mp.min
+            prev2 = [None] * n_targets
+            for v in range(32768, -1, -1 if ti % 4 == 0 else -37):
+                try:
+                    mc.value = v
+                except Exception as e:
+                    res.violation(f"C20:delivery-raises-after-window-edit:{type(e).__name__}", f"value={v} after flipping the windows in place: {e!r} for tuple {case}", dict(case, input=v))
+                    stop = True
+                    break
+                for i, (m, c) in enumerate(zip(mods, chosen)):
+                    T, cname, ckind, lo, hi, a, b, number = c
+                    if number == 0:
+                        continue
+                    got = getattr(m, cname)
+                    if got < lo or got > hi:
+                        res.violation(f"C20:out-of-range-after-window-edit:{ckind}", f"value={v}: {T}.{cname} received {got} outside [{lo},{hi}] after the windows were flipped in place", dict(case, input=v, target=i))
+                        stop = True
+                        break
+                    pv = prev2[i]
+                    # windows are now (b, a): input decreasing => output must move the other way round
+                    if pv is not None and ((b <= a and got > pv) or (b > a and got < pv)):
+                        res.violation(f"C20:not-monotone-after-window-edit:{ckind}",
+                                      f"input {v} (descending sweep, window now {b}..{a}): {T}.{cname} received {got} after {pv}; tuple {case}", dict(case, input=v, target=i))
+                        stop = True
+                        break
+                    prev2[i] = got
+                if stop:
+                    break
+            res.count("second_sweeps_after_inplace_edit")
         res.evaluations += 32769
         res.distinct += 32769
         res.count("deliveries", 32769 * sum(1 for c in chosen if c[7]))
